@@ -188,6 +188,16 @@ func (c *Connection) handleMessage(ctx context.Context, data []byte) {
 		}
 
 		c.Handler.HandleStop(msg.Id)
+	case MessageTypePing:
+		if !c.didInit {
+			return
+		}
+
+		if err := c.sendMessage(ctx, &Message{
+			Type: MessageTypePong,
+		}); err != nil {
+			c.Handler.LogError(errors.Wrap(err, "unable to send graphql-transport-ws pong"))
+		}
 	case MessageTypePong:
 		// do nothing
 	default:
